@@ -403,6 +403,16 @@ Proof.
     cbn in H. apply andb_true_iff in H. destruct H as [_ H]. now apply orb_true_iff in H.
 Qed.
 
+(* the three tables of today: dashboard, admin API, web server *)
+Lemma ha_api_routes_guarded_sound d a w :
+  ha_routes_guarded (d ++ a ++ w) = true -> ha_routes_guarded d = true -> ha_routes_guarded a = true ->
+  (forall s, In s (d ++ a ++ w) -> exists r, s = WRoute r) /\
+  (forall r, In r (ha_routes_of (d ++ a ++ w)) -> wr_mw r = true \/ ha_declared_public r = true) /\
+  d <> [] /\ a <> [].
+Proof.
+  intros H Hd Ha. apply ha_routes_guarded_sound in H, Hd, Ha. tauto.
+Qed.
+
 (* whatever the flags, the configuration and the request: a handler of a guarded table runs only for a request
    with the configured credentials, unless the route is one of the declared public ones *)
 Theorem ha_web_served_implies_credentials l en c rq p g :
